@@ -57,8 +57,17 @@ def run(ctx):
     real_rc_time, real_auth = restclient.time, restclient._krb_auth         # pylint: disable=protected-access
     import sys
     mon = sys.monitoring
-    watch_code = [c for c in appmonitor._run_sync.__code__.co_consts          # pylint: disable=protected-access
-                  if getattr(c, 'co_name', None) == '_scheduled_watch'][0]
+    def _find_code(code, name):
+        for c in code.co_consts:
+            if hasattr(c, 'co_consts'):
+                if c.co_name == name:
+                    return c
+                r = _find_code(c, name)
+                if r is not None:
+                    return r
+        return None
+    watch_code = _find_code(appmonitor._run_sync.__code__, '_scheduled_watch')          # pylint: disable=protected-access
+    mon_watch_code = _find_code(appmonitor._run_sync.__code__, '_monitor_data_watch')   # pylint: disable=protected-access
     for idx, rng in ctx.cases():
         clock = env.VClock(tick=0.0)
         clock.install()
@@ -350,7 +359,7 @@ def run(ctx):
                 return
             clock.advance(rng.choice([1, 1, 1, 1, 5, 30, 120, 300, 301, 1800, 3600, 7200]) if rng.random() < 0.35 else 1.0)
             for _ in range(rng.choice([0, 1, 1, 2])):
-                op = rng.choice(['die', 'die', 'die', 'count', 'count', 'policy', 'delmon', 'newmon', 'fail', 'fail', 'faildel', 'flap', 'refuse', 'drop', 'midreq', 'midreq', 'race', 'race'])
+                op = rng.choice(['die', 'die', 'die', 'count', 'count', 'policy', 'delmon', 'newmon', 'fail', 'fail', 'faildel', 'flap', 'refuse', 'drop', 'midreq', 'midreq', 'race', 'race', 'race-monitor', 'race-monitor', 'purge-and-fail'])
                 name = rng.choice(apps)
                 if op == 'die':
                     cur = scheduled_of(name)
@@ -376,15 +385,31 @@ def run(ctx):
                     die_mid[0] = True
                 elif op == 'race' and last_args:
                     raced_listing_update()
+                elif op == 'race-monitor' and last_args:
+                    raced_reconfiguration()
+                elif op == 'purge-and-fail':
+                    # the monitor of a suspended application is deleted, and in the evaluation that forgets its suspension
+                    # another application's create is answered with a suspending error
+                    now_ = clock.peek()
+                    gone = sorted(n_ for n_, (dl, _cz) in susp.items() if dl > now_ + 5 and n_ in ref)
+                    others = sorted(n_ for n_ in ref if n_ not in gone and n_ not in susp)
+                    if gone and others:
+                        drop_monitor(rng.choice(gone))
+                        other = rng.choice(others)
+                        cur_ = scheduled_of(other)
+                        if cur_ and len(cur_) >= ref[other]['count']:
+                            masterapi.delete_apps(admin, cur_[:len(cur_) - ref[other]['count'] + 1], 'test')
+                        fail_next[other] = rng.choice(['notfound', 'badrequest', 'validation'])
+                        ctx.count('suspended_monitor_deleted_while_another_is_about_to_fail')
                 elif op == 'flap':
                     # the monitor's connection drops and comes back: no monitor was reconfigured
                     zk.flap()
                     ctx.count('connection_flaps')
 
-        def line_cb(_code, _line):
-            # the main loop gets the CPU between two statements of the /scheduled watch callback (which runs on
-            # kazoo's thread) and evaluates: one real evaluation, judged like any other
-            if not race['armed'] or race['busy'] or not last_args:
+        def line_cb(code, _line):
+            # the main loop gets the CPU between two statements of a watch callback (which runs on kazoo's thread)
+            # and evaluates: one real evaluation, judged like any other
+            if not race['armed'] or race['busy'] or not last_args or code is not race.get('code', watch_code):
                 return
             race['n'] += 1
             if race['n'] != race['at']:
@@ -406,12 +431,31 @@ def run(ctx):
             over is judged against the one listing both views agree on."""
             noise = rng.choice(['aaa.noise', 'proid.zz', 'zzz.noise'])
             cur_ = scheduled_of(noise)
-            race.update(armed=True, n=0, at=rng.randint(1, 7))
+            race.update(armed=True, n=0, at=rng.randint(1, 7), code=watch_code)
             try:
                 if cur_ and rng.random() < 0.4:
                     masterapi.delete_apps(admin, cur_[:1], 'test')
                 else:
                     masterapi.create_apps(admin, noise, {'memory': '1G'}, 1, 'test')
+            finally:
+                race['armed'] = False
+                srv.sync_delivery = True
+                srv.deliver()
+
+        def raced_reconfiguration():
+            """The operator re-submits the configuration of a monitor that is suspended right now; the main loop evaluates
+            between two statements of that monitor's data watch callback.  A suspended monitor is left alone by the
+            evaluation whatever its configuration, so the raced evaluation is judged like any other; what the
+            following evaluations do with the suspension is the point."""
+            now_ = clock.peek()
+            cands = sorted(n_ for n_, (dl, cz) in susp.items() if dl > now_ + 5 and n_ in ref and ref[n_]['czxid'] == cz)
+            if not cands:
+                return
+            name_ = rng.choice(cands)
+            race.update(armed=True, n=0, at=rng.randint(1, 9), code=mon_watch_code)
+            try:
+                configure(name_, ref[name_]['count'], None)
+                ctx.count('suspended_monitor_reconfigured_under_a_raced_evaluation')
             finally:
                 race['armed'] = False
                 srv.sync_delivery = True
@@ -433,12 +477,14 @@ def run(ctx):
             mon.use_tool_id(TOOL, 'vf-c20')
             mon.register_callback(TOOL, mon.events.LINE, line_cb)
             mon.set_local_events(TOOL, watch_code, mon.events.LINE)
+            mon.set_local_events(TOOL, mon_watch_code, mon.events.LINE)
             try:
                 appmonitor._run_sync('http://api', alerts, False)     # pylint: disable=protected-access
             except _Stop:
                 pass
             finally:
                 mon.set_local_events(TOOL, watch_code, 0)
+                mon.set_local_events(TOOL, mon_watch_code, 0)
                 mon.register_callback(TOOL, mon.events.LINE, None)
                 mon.free_tool_id(TOOL)
         finally:
